@@ -133,7 +133,25 @@ class IterableProvider(MorphingProvider):
 
         return iter_loader_dt_all
 
+    def _get_hashable_checking_factory(self, iter_factory):
+        def hashable_checking_factory(iterable):
+            items = list(iterable)  # errors of element loaders are raised here
+            try:
+                return iter_factory(items)
+            except TypeError:
+                for item in items:
+                    try:
+                        hash(item)
+                    except TypeError:
+                        raise TypeLoadError(collections.abc.Hashable, item)
+                raise
+
+        return hashable_checking_factory
+
     def _make_loader(self, *, origin, iter_factory, arg_loader, strict_coercion: bool, debug_trail: DebugTrail):
+        if iter_factory in (set, frozenset):
+            iter_factory = self._get_hashable_checking_factory(iter_factory)
+
         if debug_trail == DebugTrail.DISABLE:
             if strict_coercion:
                 return self._get_dt_disable_sc_loader(iter_factory, arg_loader)
